@@ -153,6 +153,10 @@ def persist_job(e, p):
     st.check_invariants()
     adf2, ra2, bdd2 = A.make_adf(e, tabs, n)
     fresh = final_call(e, final, adf2, ra2, bdd2, n)
+    if final in ('grounded', 'complete', 'stable', 'heu_a', 'heu_b') or final.startswith('nogood'):
+        wrong = semjobs.answer_mismatch(e, p['fam'], tabs, n, final, got)
+        if wrong is not None:
+            report(e, 'answer-differs', what='%s on the %s round-tripped object = %s, the definition gives %s' % (final, mode, got, wrong[2]), case=case(wrong[0]), observed=got, expected=wrong[2], oracle=True)
     if sorted(map(str, got)) != sorted(map(str, fresh)):
         m = sat_model(e, True)
         report(e, 'answer-differs', what='%s on the %s round-tripped object = %s, original/fresh = %s' % (final, mode, got, fresh), case=case(m), observed=got, expected=fresh)
@@ -161,6 +165,17 @@ def persist_job(e, p):
 # ------------------------------------------------------------------ native side
 
 def native_cmd(case): return dict(case, cmd='adf_persist')
+
+def oracle_problems(out, case):
+    """the native answer of a semantics procedure judged against the definition (python oracle on the concrete tables)"""
+    fin = case['final']
+    if not (fin in ('grounded', 'complete', 'stable', 'stable_with_prefilter', 'heu_a', 'heu_b') or fin.startswith(('nogood', 'twoval'))): return []
+    if not isinstance(out.get('after'), list): return []
+    exp = semjobs.py_oracle(semjobs.oracle_kind(fin), case['tabs'], case['n'])
+    got = out['after']
+    if sorted(got) != sorted(exp): return ['%s answers %s, the definition gives %s' % (fin, got, exp)]
+    return []
+
 
 def judge(out):
     if 'after' not in out: return ['native run failed: %s' % str(out)[:300]]
@@ -174,7 +189,7 @@ def replay(ctx, v):
     feats = v['case'].get('features')
     nat = ctx.native(tuple(f for f in feats if f != 'HashSet')) if feats else ctx.native()
     out = nat.call(native_cmd(v['case']), timeout=30)
-    probs = judge(out)
+    probs = judge(out) + oracle_problems(out, v['case'])
     if probs: return 'reproduced', {'native_output': out, 'problems': probs}
     if v['kind'] == 'import-state':
         out = nat.call(native_cmd(dict(v['case'], probe=v.get('probe'))), timeout=30)
